@@ -8,9 +8,10 @@ export PYTHONPATH="$D/src"
 git diff -- src > /tmp/advres/$(basename $D).cur.diff
 # with the change
 timeout 600 /venv/bin/python demo.py > /tmp/advres/$(basename $D).demo_mut.log 2>&1; RC_MUT=$?
-git stash -q
+# NB: never `git stash` here — the stash is shared by all worktrees of one repository
+git apply -R /tmp/advres/$(basename $D).cur.diff
 timeout 600 /venv/bin/python demo.py > /tmp/advres/$(basename $D).demo_orig.log 2>&1; RC_ORIG=$?
-git stash pop -q
+git apply /tmp/advres/$(basename $D).cur.diff
 # suite with the change
 /venv/bin/python -m pytest -q -p no:cacheprovider --timeout=900 --continue-on-collection-errors -n 10 --junitxml=/tmp/advres/$(basename $D).xml > /tmp/advres/$(basename $D).suite.log 2>&1
 python3 /tmp/cmp_suite.py /tmp/advres/$(basename $D).xml > /tmp/advres/$(basename $D).cmp.txt 2>&1
